@@ -246,8 +246,16 @@ fn drive(cfgv: &Value, wc: WorldCfg, out: &mut impl Write) {
             } else if r >= 100 + w_live + w_hb + w_sync {
                 // external catch-up: a snapshot of some peer's copy of x, sometimes with
                 // inconsistent max version / watermark, sometimes arbitrary entries
-                let x = nodes.choose(&mut rng).unwrap().clone();
+                let mut x = nodes.choose(&mut rng).unwrap().clone();
                 let p = active.choose(&mut rng).unwrap().clone();
+                if cu_garbage && rng.random_bool(0.5) {
+                    // prefer a member whose copy at the receiver already has a GC watermark
+                    let nv = run.world.project(&n);
+                    let cands: Vec<String> = nv["ns"].as_object().map(|o| o.iter()
+                        .filter(|(k, c)| k.as_str() != n && c["gc"].as_u64().unwrap_or(0) > 0)
+                        .map(|(k, _)| k.clone()).collect()).unwrap_or_default();
+                    if let Some(c) = cands.choose(&mut rng) { x = c.clone(); }
+                }
                 if x == n { json!({"a": "Nop"}) } else {
                     let pv = run.world.project(&p);
                     let c = pv["ns"].get(&x).cloned().unwrap_or(json!({"kv": {}, "max": 0, "gc": 0}));
@@ -266,13 +274,24 @@ fn drive(cfgv: &Value, wc: WorldCfg, out: &mut impl Write) {
                         1 => { gc = rng.random_range(0..max + 3); }
                         2 => {
                             let used: Vec<u64> = kvs.values().map(|e| e["ver"].as_u64().unwrap_or(0)).collect();
-                            let ver = max + 1 + rng.random_range(0..2);
+                            // any unused version: above the supplied max version, or anywhere below it
+                            // (also at or below the receiving copy's watermark)
+                            let ver = if rng.random_bool(0.5) { max + 1 + rng.random_range(0..2) } else { rng.random_range(1..max + 2) };
                             if !used.contains(&ver) {
                                 let k = keys.choose(&mut rng).unwrap().clone();
                                 vc += 1;
                                 let stn = ["Set", "Del", "Ttl"][rng.random_range(0..3)];
                                 kvs.insert(k, json!({"val": format!("c{vc}"), "ver": ver, "st": stn}));
                                 if rng.random_bool(0.5) { max = ver; }
+                            }
+                        }
+                        3 => {
+                            // an existing entry with another status (a tombstone or TTL mark at any version)
+                            let ks: Vec<String> = kvs.keys().cloned().collect();
+                            if let Some(k) = ks.choose(&mut rng) {
+                                let stn = ["Set", "Del", "Ttl"][rng.random_range(0..3)];
+                                kvs[k]["st"] = json!(stn);
+                                if stn != "Del" && kvs[k]["val"] == json!("") { vc += 1; kvs[k]["val"] = json!(format!("c{vc}")); }
                             }
                         }
                         _ => {}
